@@ -34,3 +34,15 @@ def match(pid, payload):
         except Exception:
             pass
     return None
+
+
+@predicate("R13a")
+def _r13a(p):
+    # the implementation stored a block whose ancestor list differs from its real predecessors (WellFormed clause 7)
+    return not p.get("corr") and p.get("code", 0) % 10000 == 7
+
+
+@predicate("R13a-C03")
+def _r13a_c03(p):
+    # fresh node refused a main-chain block, in a history where a block with a wrong ancestor list was accepted
+    return not p.get("corr") and p.get("code") == 8
